@@ -23,6 +23,7 @@ func init() {
 			"TransportLayerCC frames are judged only when the decoded header is consistent with the content (the statement's precondition); an inconsistent one still must not panic",
 			"accepted inputs are reached by mutation of valid encodings, not by exhaustive search of byte strings",
 		},
+		FuzzTarget: "FuzzReencode", FuzzExecs: 6000000,
 		MinDistinctQuick: 20000, MinDistinctThorough: 2000000,
 	})
 }
